@@ -40,6 +40,19 @@ type Engine struct {
 	assumeSeen map[string]bool
 	FunctionsRun []string
 	TrustedFuncs []string
+	ImmutablePrefixes []string // heap-array name prefixes ("fld$pkg.Type.") of immutable struct types
+}
+
+// immutableHeap: the named heap array holds a field of a struct type declared immutable: its entries for allocated
+// objects never change, so it is one global array (objects allocated later take references whose entries have the
+// values they are initialised with - the same model as results of contract calls).
+func (e *Engine) immutableHeap(name string) bool {
+	for _, p := range e.ImmutablePrefixes {
+		if strings.HasPrefix(name, p) {
+			return true
+		}
+	}
+	return false
 }
 
 func Load(repo string) (*Engine, error) {
@@ -72,6 +85,9 @@ func Load(repo string) (*Engine, error) {
 			return nil, err
 		}
 		pi.Spec = spec
+		for _, tn := range spec.Immutable {
+			e.ImmutablePrefixes = append(e.ImmutablePrefixes, "fld$"+p.Name+"."+tn+".")
+		}
 		for _, f := range p.Syntax {
 			for _, d := range f.Decls {
 				fd, ok := d.(*ast.FuncDecl)
@@ -419,6 +435,13 @@ func (c *Ctx) assume(t Term) {
 	if t.B != nil && *t.B {
 		return
 	}
+	if len(t.Conj) > 1 {
+		// conjuncts become separate hypotheses (finer hypothesis slicing)
+		for _, k := range t.Conj {
+			c.assume(k)
+		}
+		return
+	}
 	c.St.Path = append(c.St.Path, t)
 }
 
@@ -636,11 +659,15 @@ func (c *Ctx) heapArr(name string, sort Sort) Term {
 	if t, ok := c.St.Heap[name]; ok {
 		return t
 	}
-	sym := fmt.Sprintf("H%d$%s", c.St.Epoch, sanitize(name))
+	ep := c.St.Epoch
+	if c.E.immutableHeap(name) {
+		ep = 0
+	}
+	sym := fmt.Sprintf("H%d$%s", ep, sanitize(name))
 	c.declare(sym, sort)
 	t := Term{S: sym, Sort: sort}
 	c.St.Heap[name] = t
-	if c.St.Epoch > 0 && !strings.HasPrefix(name, "glob$") {
+	if ep > 0 && !strings.HasPrefix(name, "glob$") {
 		c.assumeFrame(name, t)
 	}
 	return t
@@ -654,6 +681,9 @@ func (c *Ctx) heapArrIn(heap map[string]Term, name string, sort Sort) Term {
 	ep := int64(0)
 	if e, ok := heap["$epoch"]; ok && e.C != nil {
 		ep = e.C.Int64()
+	}
+	if c.E.immutableHeap(name) {
+		ep = 0
 	}
 	sym := fmt.Sprintf("H%d$%s", ep, sanitize(name))
 	c.declare(sym, sort)
@@ -938,6 +968,14 @@ func (c *Ctx) assumeWFTop(v *Val, ints string, top Term) {
 			}
 		case TRef, TCell:
 			add(And(Le(IntLit(0), v.T), Lt(v.T, top)))
+			// typing invariant: a non-nil *T, T a struct no other struct embeds, is a whole object of dynamic type *T
+			if pt, ok := v.Typ.(*types.Pointer); ok {
+				if nt, ok := pt.Elem().(*types.Named); ok {
+					if _, isStruct := nt.Underlying().(*types.Struct); isStruct && len(c.E.embedders(nt)) == 0 {
+						add(Implies(Not(Eq(v.T, IntLit(0))), Eq(App(SInt, "dyntype", v.T), IntLit(int64(c.E.typeTag(namedKey(nt)))))))
+					}
+				}
+			}
 		}
 	case VStruct:
 		for _, f := range v.F {
@@ -976,6 +1014,11 @@ func (c *Ctx) loadField(heap map[string]Term, ref Term, owner *types.Named, f *t
 
 func (c *Ctx) storeField(ref Term, owner *types.Named, f *types.Var, v *Val) {
 	ints, floats := c.E.pkgModes(owner.Obj().Pkg())
+	if c.E.immutableHeap(fieldBase(owner, f.Name())) {
+		if root := c.rootFrame(); root != nil && root.OldTop.S != "" {
+			c.assert("immutable-write", "", Le(root.OldTop, ref), "fields of an immutable type are written only while the object is being constructed", nil)
+		}
+	}
 	c.store(fieldBase(owner, f.Name()), []Term{ref}, f.Type(), v, ints, floats)
 }
 
@@ -1067,7 +1110,25 @@ func (c *Ctx) setContents(sl *Val, contents Term) {
 
 func cellBase(elem types.Type) string { return "cell$" + typeKey(elem) }
 
+// structCell: a variable of named struct type whose address is taken is an ordinary object (field arrays), so
+// that &v is a reference like any other.
+func structCell(elem types.Type) (*types.Named, bool) {
+	if nt, ok := elem.(*types.Named); ok {
+		if _, isStruct := nt.Underlying().(*types.Struct); isStruct {
+			return nt, true
+		}
+	}
+	return nil, false
+}
+
 func (c *Ctx) loadCell(heap map[string]Term, ref Term, elem types.Type) *Val {
+	if nt, ok := structCell(elem); ok {
+		v := c.load(heap, "fld$"+namedKey(nt), []Term{ref}, elem, c.Fr.Ints, c.Fr.Floats)
+		if heap == nil {
+			c.assumeWF(v, c.Fr.Ints)
+		}
+		return v
+	}
 	v := c.load(heap, cellBase(elem)+modeSuffix(elem, c.Fr.Ints, c.Fr.Floats), []Term{ref}, elem, c.Fr.Ints, c.Fr.Floats)
 	if heap == nil {
 		c.assumeWF(v, c.Fr.Ints)
@@ -1076,6 +1137,10 @@ func (c *Ctx) loadCell(heap map[string]Term, ref Term, elem types.Type) *Val {
 }
 
 func (c *Ctx) storeCell(ref Term, elem types.Type, v *Val) {
+	if nt, ok := structCell(elem); ok {
+		c.store("fld$"+namedKey(nt), []Term{ref}, elem, v, c.Fr.Ints, c.Fr.Floats)
+		return
+	}
 	c.store(cellBase(elem)+modeSuffix(elem, c.Fr.Ints, c.Fr.Floats), []Term{ref}, elem, v, c.Fr.Ints, c.Fr.Floats)
 }
 
